@@ -261,7 +261,10 @@ def find_item(src, path, selector):
             if it.kind == "impl" and _hdr_eq(it.name, norm(leaf)):
                 out.append(it)
             continue
-        if it.kind != kind or it.name != name.strip():
+        want_name = name.strip()
+        if kind == "trait":
+            want_name = re.match(r"[A-Za-z_0-9]+", want_name).group(0)
+        if it.kind != kind or it.name != want_name:
             continue
         ic = [c for c in it.containers if not _strip_vis(c).startswith("mod ")]
         if len(conts) > len(ic):
